@@ -54,6 +54,10 @@ Clause(e) ==
          IF ~e.ok THEN "control-change"
          ELSE IF refused THEN (IF e.out.ret = FALSE /\ e.out.events = <<>> /\ e.out.observer = <<>> THEN "ok" ELSE "control-change-refused")
          ELSE (IF e.out.ret = TRUE /\ Evs(e.out.events) = <<SEv("cc", e.in.control, e.in.channel, e.in.value)>> /\ Evs(e.out.observer) = Evs(e.out.events) THEN "ok" ELSE "control-change-emitted")
+    [] e.op = "cc_fraction" ->     \* control = cn/cd, value = vn/vd (cd, vd > 0): a number below 0 or above 128 is refused whether integral or not
+         LET refused == e.in.cn < 0 \/ e.in.cn > 128 * e.in.cd \/ e.in.vn < 0 \/ e.in.vn > 128 * e.in.vd IN
+         IF ~refused THEN "ok"
+         ELSE IF e.ok /\ e.out.ret = FALSE /\ e.out.events = <<>> /\ e.out.observer = <<>> THEN "ok" ELSE "control-change-refused"
     [] e.op = "build" -> "ok"
     [] OTHER -> "unknown-op"
 W == INSTANCE Walk
